@@ -463,7 +463,9 @@ type c13Chain struct {
 	Delayed bool `json:"time_delayed"`
 	Reverse bool `json:"reverse_node_order"`
 	Direct  bool `json:"direct_sensor_output_link"`
-	Mode    int  `json:"mode"` // 0 Activate(), 1 ForwardSteps(1), 2 alternating, 3 fast solver ForwardSteps(1), 4 fast solver Relax
+	Module  int  `json:"module"`      // 0 none; 1 / 2: a control node (multiply / max module) reads the extra link's target node and the side neuron and drives a further hidden node that feeds the output
+	Hot     bool `json:"hot_history"` // chain nodes and output are linear and the history before the flush loads +Inf / -Inf / NaN (a diverged simulation): the signals are non-finite when the flush happens
+	Mode    int  `json:"mode"`        // 0 Activate(), 1 ForwardSteps(1), 2 alternating, 3 fast solver ForwardSteps(1), 4 fast solver Relax
 	WarmUp  int  `json:"warm_up"`
 }
 
@@ -474,6 +476,12 @@ func (cs c13Chain) build() (*network.Network, network.Solver, error) {
 		chain[i] = network.NewNNode(2+i, network.HiddenNeuron)
 	}
 	side := network.NewNNode(3+cs.L, network.HiddenNeuron)
+	if cs.Hot {
+		out.ActivationType = neatmath.LinearActivation
+		for i := 1; i <= cs.L; i++ {
+			chain[i].ActivationType = neatmath.LinearActivation
+		}
+	}
 	if cs.Direct {
 		out.ConnectFrom(in, 0.1)
 	}
@@ -509,6 +517,18 @@ func (cs c13Chain) build() (*network.Network, network.Solver, error) {
 	}
 	all = append(all, side)
 	net := network.NewNetwork([]*network.NNode{in}, []*network.NNode{out}, all, 0)
+	if cs.Module > 0 {
+		mo := network.NewNNode(4+cs.L, network.HiddenNeuron)
+		out.ConnectFrom(mo, 0.3)
+		all = append(all, mo)
+		ctrl := network.NewNNode(5+cs.L, network.HiddenNeuron)
+		ctrl.ActivationType = []neatmath.NodeActivationType{neatmath.MultiplyModuleActivation, neatmath.MaxModuleActivation}[cs.Module-1]
+		for _, src := range []*network.NNode{chain[cs.Target], side} {
+			ctrl.Incoming = append(ctrl.Incoming, network.NewLink(1, src, ctrl, false))
+		}
+		ctrl.Outgoing = append(ctrl.Outgoing, network.NewLink(1, ctrl, mo, false))
+		net = network.NewModularNetwork([]*network.NNode{in}, []*network.NNode{out}, all, []*network.NNode{ctrl}, 0)
+	}
 	if cs.Mode >= 3 {
 		fs, err := net.FastNetworkSolver()
 		return net, fs, err
@@ -518,7 +538,13 @@ func (cs c13Chain) build() (*network.Network, network.Solver, error) {
 
 var c13ChainInputs = []float64{0.9, 0.4, 0.7, 0.2, 0.8, 0.5, 0.3}
 
+var c13HotInputs = []float64{math.Inf(1), math.Inf(-1), math.NaN()}
+
 func c13ChainSteps(net *network.Network, solver network.Solver, mode int, n int, b *strings.Builder) {
+	c13ChainStepsIn(net, solver, mode, n, b, c13ChainInputs)
+}
+
+func c13ChainStepsIn(net *network.Network, solver network.Solver, mode int, n int, b *strings.Builder, inputs []float64) {
 	for i := 0; i < n; i++ {
 		var res bool
 		var err error
@@ -528,7 +554,7 @@ func c13ChainSteps(net *network.Network, solver network.Solver, mode int, n int,
 					err = fmt.Errorf("panic: %v", r)
 				}
 			}()
-			if err = solver.LoadSensors([]float64{c13ChainInputs[i%len(c13ChainInputs)]}); err != nil {
+			if err = solver.LoadSensors([]float64{inputs[i%len(inputs)]}); err != nil {
 				return
 			}
 			switch {
@@ -566,7 +592,11 @@ func c13ChainRun(cs c13Chain) (got, fresh string, err error) {
 	c13ChainSteps(n0, s0, cs.Mode, T, &f)
 	n1, s1, _ := cs.build()
 	var junk, g strings.Builder
-	c13ChainSteps(n1, s1, cs.Mode, cs.WarmUp, &junk)
+	if cs.Hot {
+		c13ChainStepsIn(n1, s1, cs.Mode, cs.WarmUp, &junk, c13HotInputs)
+	} else {
+		c13ChainSteps(n1, s1, cs.Mode, cs.WarmUp, &junk)
+	}
 	if ok, ferr := s1.Flush(); ferr != nil || !ok {
 		fmt.Fprintf(&g, "FLUSH-FAILED(%v,%v)", ok, ferr)
 	}
@@ -583,21 +613,23 @@ func c13Chains(c *Ctx) {
 				for _, delayed := range []bool{true, false} {
 					for _, rev := range []bool{false, true} {
 						for _, direct := range []bool{true, false} {
-							nets++
-							for mode := 0; mode <= 4; mode++ {
-								for k := 1; k <= len(c13ChainInputs); k++ {
-									cs := c13Chain{L: L, Target: target, Source: source, Delayed: delayed, Reverse: rev, Direct: direct, Mode: mode, WarmUp: k}
-									got, fresh, err := c13ChainRun(cs)
-									if err != nil {
-										continue
-									}
-									n++
-									if got != fresh {
-										params := map[string]interface{}{}
-										js, _ := jsonMarshal(cs)
-										_ = jsonUnmarshal(js, &params)
-										msg := fmt.Sprintf("chain network %+v: after %d warm-up steps and Flush the %d-step sequence observes %q, a fresh instance observes %q", cs, k, len(c13ChainInputs), got, fresh)
-										c.ViolateOrd("C13/chain/flushed-differs-from-fresh", int64(L*1000+k*10+mode), msg, &Replay{Scenario: "chain", Params: params, Clause: msg})
+							for module := 0; module <= 3; module++ {
+								nets++
+								for mode := 0; mode <= 4; mode++ {
+									for k := 1; k <= len(c13ChainInputs); k++ {
+										cs := c13Chain{L: L, Target: target, Source: source, Delayed: delayed, Reverse: rev, Direct: direct, Module: module % 3, Hot: module == 3, Mode: mode, WarmUp: k}
+										got, fresh, err := c13ChainRun(cs)
+										if err != nil {
+											continue
+										}
+										n++
+										if got != fresh {
+											params := map[string]interface{}{}
+											js, _ := jsonMarshal(cs)
+											_ = jsonUnmarshal(js, &params)
+											msg := fmt.Sprintf("chain network %+v: after %d warm-up steps and Flush the %d-step sequence observes %q, a fresh instance observes %q", cs, k, len(c13ChainInputs), got, fresh)
+											c.ViolateOrd("C13/chain/flushed-differs-from-fresh", int64(L*1000+k*10+mode), msg, &Replay{Scenario: "chain", Params: params, Clause: msg})
+										}
 									}
 								}
 							}
